@@ -133,6 +133,9 @@ def add_include_reldeps(r, scn):
 def render_cond(scn, pkg):
     lines = []
     done_groups = set()
+    if scn.get("cond_prelude") == pkg:
+        # ordinary Python at the top of a COND file: the usual idiom against "BrokenPipeError" noise
+        lines += ["import signal", "signal.signal(signal.SIGPIPE, signal.SIG_DFL)"]
     if any(d.get("increl") and split_tid(t)[0] == pkg for t, d in scn["tasks"].items()):
         lines.append("include(%r)" % ("//" + scn["include"]["file"]))
     inc_task = [(t, d) for t, d in scn["tasks"].items() if d.get("inc") and split_tid(t)[0] == pkg]
